@@ -127,7 +127,7 @@ def run(tier, rnd, out):
     run_direct(out, "direct", cs)
     import logging
     lg = logging.getLogger("aioswitcher"); old = lg.level; h = logging.NullHandler(); lg.addHandler(h); lg.setLevel(logging.DEBUG)
-    try: run_direct(out, "direct-with-debug-logging-enabled", cs[::3] if tier == "quick" else cs)
+    try: run_direct(out, "direct-with-debug-logging-enabled", cs)
     finally: lg.setLevel(old); lg.removeHandler(h)
     run_bridge(out, "through-a-running-bridge", rnd.sample(cs, 60 if tier == "quick" else 600))
     out.exhaustive = tier == "thorough"
